@@ -172,9 +172,23 @@ fn check_bdd_export(ctx: &mut Ctx, sp: &Space<NamedSymbol>, tt: u64, fi: usize) 
     let case = json!({"part": if exotic { "bdd-exotic" } else { "bdd" }, "k": sp.k, "f": tt, "filter": fi});
     ctx.begin_case(|| case.clone());
     ctx.count("evaluations", 1);
-    let f = sp.get(tt);
+    // every other function is exported from a copy that shares nothing with the environment
+    // (every leaf occurrence a separate allocation, as after a conversion between symbol types)
+    // ... but only where no two internal nodes of the copy are structurally equal: the exporter
+    // identifies nodes by address and de-duplicates them by structure, which is inconsistent for
+    // such copies (finding F9, recorded in known_findings.json with one witness)
+    let g0 = sp.get(tt);
+    fn tree_size(b: &BDD<NamedSymbol>) -> usize {
+        match b {
+            BDD::Choice(t, _, e) => 1 + tree_size(t) + tree_size(e),
+            _ => 0,
+        }
+    }
+    let internal_distinct = robdd::distinct_nodes(&g0).iter().filter(|n| matches!(n.as_ref(), BDD::Choice(..))).count();
+    let copy = (tt + fi as u64) % 2 == 1 && tree_size(&g0) == internal_distinct;
+    let f = if copy { robdd::deep_copy(&g0) } else { g0 };
     let names = names_of(&sp.syms);
-    let key = format!("{TAG} diagram export: f={tt:#x} over {:?}, filter {:?}", names, filt(fi));
+    let key = format!("{TAG} diagram export: f={tt:#x} over {:?}, filter {:?}{}", names, filt(fi), if copy { " (non-interned copy)" } else { "" });
     let mut buf: Vec<u8> = vec![];
     if let Err(p) = guarded(|| BDDGraph::new(&f, filt(fi)).render_dot(&mut buf)) {
         ctx.violation(key, format!("render_dot panicked: {p}"), case);
@@ -749,6 +763,31 @@ fn check_coarse_hash_export(ctx: &mut Ctx, tt: u64, fi: usize) {
     }
 }
 
+/// F9 witness: a diagram that is not interned anywhere and has two structurally equal internal
+/// nodes at different addresses (a copy of ite(x0, x1 & x2, x1 | x2): the test on x2 occurs
+/// twice). Exported, it references a node it does not declare.
+fn check_f9_witness(ctx: &mut Ctx) {
+    let case = json!({"part": "f9-witness"});
+    ctx.begin_case(|| case.clone());
+    ctx.count("evaluations", 1);
+    let syms = named(3);
+    let Ok(sp) = Space::<NamedSymbol>::by_interning(&syms) else { return };
+    // ite(x0, x1 & x2, x1 | x2) as a truth table over (x0, x1, x2), bit i of the index = x_i
+    let tt: u64 = (0..8u64).filter(|a| if a & 1 == 1 { a & 2 != 0 && a & 4 != 0 } else { a & 2 != 0 || a & 4 != 0 }).map(|a| 1u64 << a).sum();
+    let f = robdd::deep_copy(&sp.get(tt));
+    let mut buf: Vec<u8> = vec![];
+    if guarded(|| BDDGraph::new(&f, filt(0)).render_dot(&mut buf)).is_err() {
+        return;
+    }
+    let text = String::from_utf8_lossy(&buf).into_owned();
+    if let Ok(g) = dot::parse(&text) {
+        let c = judge_bdd_dot_iso(&g, &f, 0);
+        if !c.is_empty() {
+            ctx.violation(format!("{TAG} diagram export of a non-interned copy of ite(x0, x1 & x2, x1 | x2) (two equal internal nodes at different addresses)"), c.join("; "), case);
+        }
+    }
+}
+
 fn check_big_export(ctx: &mut Ctx, member: usize, fi: usize) {
     let Some((name, n, f)) = big_member(member) else { return };
     let case = json!({"part": "bdd-big", "member": member, "name": name, "filter": fi});
@@ -777,6 +816,9 @@ fn check_big_export(ctx: &mut Ctx, member: usize, fi: usize) {
 }
 
 fn run(ctx: &mut Ctx) {
+    if ctx.shard == 0 {
+        check_f9_witness(ctx);
+    }
     {
         let mut idx = 1u64 << 40;
         let mut m = 0;
@@ -894,6 +936,7 @@ fn run(ctx: &mut Ctx) {
 fn replay(ctx: &mut Ctx, c: &Value) {
     match c["part"].as_str() {
         Some("tree") => check_tree_export(ctx, c["text"].as_str().unwrap_or("")),
+        Some("f9-witness") => check_f9_witness(ctx),
         Some("bdd-coarse-hash") => check_coarse_hash_export(ctx, c["f"].as_u64().unwrap_or(0), c["filter"].as_u64().unwrap_or(0) as usize),
         Some("bdd-big") => check_big_export(ctx, c["member"].as_u64().unwrap_or(0) as usize, c["filter"].as_u64().unwrap_or(0) as usize),
         Some("bdd-exotic") => {
